@@ -4,7 +4,7 @@ D1: inventory of iterations over unordered collections (HashMap / HashSet) in ev
 from in_toto_verify and Metablock::verify; each is classified by how it is consumed.
 D2: no ambient non-determinism (clock other than the expiry guard, randomness, environment)."""
 import re
-from ..core import Body, callee_name, norm, op_place, op_const, proj_path, short, uses_of_local
+from ..core import Body, callee_name, norm, op_place, op_const, proj_path, short, uses_of_local, SOME, F0
 from ..guards import body_of, root_ids, same_root, def_call
 
 EXPLANATION = (
@@ -407,6 +407,8 @@ class Flow:
                     continue
                 if self.is_iter_state(body, l, hb):
                     continue
+                if self.is_running_extremum(body, l, st, b, loop, hb):
+                    continue
                 problems.append(("assign-outer", st["at"], "assigns %s, which outlives the iteration" % body.local_name(l)))
             t = blk["term"]
             if t and t["k"] == "call":
@@ -658,6 +660,126 @@ class Flow:
                     return self.ref_base(body, op_place(args[0])["l"]) or op_place(args[0])["l"]
                 return None
             return None
+        return None
+
+    def is_running_extremum(self, body, l, st, b, loop, hb):
+        """see _extremum_site; an assignment that runs only while `best` is still None (the first element seen) is order
+        dependent on its own - it is accepted only next to a sibling assignment under the strict key comparison."""
+        k = self._extremum_site(body, l, st, b, loop, hb)
+        if k in ("cmp", "mixed"):
+            return True
+        if k == "none":
+            for b2 in sorted(loop):
+                for st2 in body.blocks[b2]["stmts"]:
+                    if st2 is not st and st2["k"] == "assign" and st2["dst"]["l"] == l and not st2["dst"]["p"] and \
+                            self._extremum_site(body, l, st2, b2, loop, hb) == "cmp":
+                        return True
+        return False
+
+    def _extremum_site(self, body, l, st, b, loop, hb):
+        """`best = Some(elem)` inside the loop, taken only when `best` is still None or when the KEY of the current element is
+        strictly below / above the key kept in `best`: the minimum (maximum) of distinct map keys under a total order is the
+        same whatever the iteration order."""
+        from ..core import as_cmp, CMP_CALLS
+        rv = st["rv"]
+        for _ in range(3):
+            q = op_place(rv["op"]) if rv["k"] == "use" else None
+            dq = body.single_def(q["l"]) if (q is not None and not q["p"]) else None
+            if dq is not None and dq.kind == "assign":
+                rv = dq.node["rv"]
+            else:
+                break
+        if not (rv["k"] == "agg" and rv.get("variant") == "Some" and "Option" in (rv.get("adt") or "")) or st["dst"]["p"]:
+            return None
+        ht = body.blocks[hb]["term"]
+        if not ht or ht["k"] != "call" or callee_name(ht) != "std::iter::Iterator::next":
+            return None
+        def from_elem(op, key_only):
+            lv = body.trace(op, (), lambda tt: tt is ht, None if key_only else {"__agg_all__": True})
+            return bool(lv) and all(lf.kind == "call" and lf.data[0] == hb and lf.path[:2] == (SOME, F0) and
+                                    (not key_only or lf.path[2:3] == (F0,)) for lf in lv)
+        if not from_elem(rv["ops"][0], False):
+            return None
+        def based_on_best(op):
+            p = op_place(op)
+            for _ in range(10):
+                if p is None:
+                    return False
+                if p["l"] == l:
+                    return True
+                d = body.single_def(p["l"])
+                if d is None or d.kind != "assign":
+                    return False
+                r = d.node["rv"]
+                p = r["place"] if r["k"] in ("ref", "rawptr") else (op_place(r["op"]) if r["k"] == "use" else None)
+            return False
+        def none_edge_dominates(bb):
+            return any(fa[0] == "variant" and fa[2] == "None" and fa[1]["l"] == l and e[0] in loop for (e, fa) in body.facts_dominating(bb))
+        def strict_key_cmp(node):
+            """node: call term or binop rvalue comparing the element's key with the key kept in `best`, strictly"""
+            if node.get("k") == "call":
+                op = CMP_CALLS.get(callee_name(node))
+                args = node["args"] if len(node["args"]) == 2 else None
+            else:
+                op, args = node.get("op"), [node.get("a"), node.get("b")]
+            if op not in ("Lt", "Gt") or not args:
+                return False
+            a, c = args
+            return (from_elem(a, True) and not based_on_best(a) and based_on_best(c)) or (from_elem(c, True) and not based_on_best(c) and based_on_best(a))
+        # the innermost switch of the loop that decides whether the assignment runs
+        guards = [(e, fa) for (e, fa) in body.facts_dominating(b) if e[0] in loop]
+        for (e, fa) in guards:
+            cm = as_cmp(fa)
+            if cm and fa[0] == "bool":
+                node = fa[1]
+                if node[0] == "call" and strict_key_cmp(node[2]) and fa[2] is True:
+                    return "cmp"
+                if node[0] == "binop" and fa[2] is True and strict_key_cmp({"op": node[1], "a": node[2], "b": node[3]}):
+                    return "cmp"
+        if any(fa[0] == "variant" and fa[2] == "None" and fa[1]["l"] == l for (e, fa) in guards):
+            return "none"
+        # the guard is a bool local computed by a match on `best`: every definition is `true` under `best is None`, or the strict
+        # comparison of the keys
+        for e in {e for (e, fa) in guards}:
+            t = body.blocks[e[0]]["term"]
+            if not t or t["k"] != "switch":
+                continue
+            g = op_place(t["discr"])
+            if g is None or g["p"] or body.local_ty(g["l"]) != "bool":
+                continue
+            for _ in range(3):      # `_t = copy flag; switch _t`
+                dg = body.single_def(g["l"])
+                qg = op_place(dg.node["rv"]["op"]) if (dg and dg.kind == "assign" and dg.node["rv"]["k"] == "use") else None
+                if qg is not None and not qg["p"]:
+                    g = qg
+                else:
+                    break
+            # the edge taken must be the `true` edge
+            tb, lab = body.succ[e[0]][e[1]]
+            taken_true = (lab[0] == "sw" and lab[1] != 0) or (lab[0] == "other" and 0 in {v for v, _ in t["arms"]})
+            if not taken_true:
+                continue
+            defs = body.defs.get(g["l"], [])
+            if len(defs) < 2:
+                continue
+            okd = True
+            n_cmp = 0
+            for d in defs:
+                if d.kind == "assign" and d.node["rv"]["k"] == "use" and op_const(d.node["rv"]["op"]) is not None:
+                    if op_const(d.node["rv"]["op"]).get("int") == 1 and not none_edge_dominates(d.bb):
+                        okd = False
+                elif d.kind == "call":
+                    n_cmp += 1
+                    if not strict_key_cmp(d.node):
+                        okd = False
+                elif d.kind == "assign" and d.node["rv"]["k"] == "binop":
+                    n_cmp += 1
+                    if not strict_key_cmp(d.node["rv"]):
+                        okd = False
+                else:
+                    okd = False
+            if okd and n_cmp >= 1:
+                return "mixed"
         return None
 
     def is_counter_step(self, body, l, rv):
